@@ -38,4 +38,21 @@ let do_mom () =
   done;
   print_string "end\n"
 
-let () = run_main ["fp", do_fp; "mom", do_mom]
+(* fixpt <id> <v> <k> ; a t e1 delta ; k triples x y z
+   prints the proved closed-form fixed point of the recurrence per unit charge (Model/Moments2Fix.v: smq_fix),
+   the proved contraction factor rho (smq_rho) and N(x,y,z) (smq_N) for each triple *)
+let do_fixpt () =
+  let id = next () in
+  let v = nexti () in let k = nexti () in
+  let a = nextq () in let t = nextq () in let e1 = nextq () in let delta = nextq () in
+  let z = z_of_int in
+  Printf.printf "case %s\n" id;
+  print_qs "fix" (smq_fix (z v) a t e1 delta);
+  Printf.printf "rho %s\n" (tok_of_q (smq_rho a t e1));
+  for i = 1 to k do
+    let m = nextqs 3 in
+    Printf.printf "N %d %s\n" i (tok_of_q (smq_N a t e1 m))
+  done;
+  print_string "end\n"
+
+let () = run_main ["fp", do_fp; "mom", do_mom; "fixpt", do_fixpt]
